@@ -59,8 +59,13 @@ NextObj == /\ InObj /\ ObjDone
 \* high-contention executions carry only totals: final value = initial value + sum of all operations
 RECURSIVE SeqSum(_, _)
 SeqSum(q, i) == IF i > Len(q) THEN 0 ELSE q[i] + SeqSum(q, i + 1)
-SumsOK(xx) == ("sum" \in DOMAIN T[xx]) => \A i \in 1..Len(T[xx].sum) :
-                  T[xx].sum[i].final = T[xx].sum[i].init + SeqSum(T[xx].sum[i].net, 1)
+RECURSIVE Pow2(_)
+Pow2(n) == IF n = 0 THEN 1 ELSE 2 * Pow2(n - 1)
+SumsOK(xx) == ("sum" \in DOMAIN T[xx]) =>
+                /\ \A i \in 1..Len(T[xx].sum) : T[xx].sum[i].final = T[xx].sum[i].init + SeqSum(T[xx].sum[i].net, 1)
+                \* multiplicative read-modify-write operators: n concurrent "*= 2" then n concurrent "/= 2"
+                /\ T[xx].prod.afterMul = T[xx].prod.init * Pow2(T[xx].prod.doublings)
+                /\ T[xx].prod.afterDiv = T[xx].prod.init
 NextExec == /\ x <= NExec /\ oi > Len(T[x].objs)
             /\ SumsOK(x)
             /\ x' = x + 1 /\ oi' = 1 /\ pos' = Pos0(x + 1, 1) /\ val' = Unknown
